@@ -143,27 +143,164 @@ Definition ret {A} (a : A) (p : pz) : res (A * pz) := Ok (a, p).
    A Section over the recursive renderers (bound to the Fixpoint below) and over the fields of the statement,
    so that every clause is a top-level definition theorems can speak about; the two flags of the embedding
    position (subquery, with_alias) are explicit arguments of tail_with / generic_with / main_with. *)
-Section Q.
+(* ---- _SetOperation.get_sql ---- *)
+Section SetOp.
 Variables
-  (render_o : ctx -> pz -> oterm -> res (option str * pz))
-  (render_ts : ctx -> pz -> terms -> res (list str * pz))
+  (render_query : ctx -> pz -> query -> res (str * pz))
+  (render_sops : ctx -> nat -> pz -> sops -> res (str * pz))
   (render_obys : ctx -> list (option str) -> bool -> pz -> obys -> res (list str * pz))
-  (render_rows : ctx -> pz -> rows -> res (list str * pz))
-  (render_upds : ctx -> ctx -> pz -> upds -> res (list str * pz))
-  (render_cupds : ctx -> ctx -> option str -> pz -> cupds -> res (list str * pz))
-  (render_joins : ctx -> pz -> joins -> res (list str * pz))
-  (render_ctes : ctx -> pz -> ctes -> res (list str * pz))
-  (render_gbys : ctx -> pz -> gbys -> res (list str * pz)).
-Variables (c00 : ctx) (cls : bcls)
-  (alias : option str) (delete_from replace_ distinct for_update nowait skip_locked with_totals mysql_rollup
-          select_into foreign_table on_conflict do_nothing : bool)
-  (for_update_of : list str) (modifiers : list str) (top : option Z)
-  (from : terms) (withs : ctes) (selects : terms) (force_idx use_idx : terms) (columns : terms) (values : rows)
-  (wheres prewheres havings : oterm) (groupbys : gbys) (orderbys : obys) (joins_ : joins) (lim off : oterm)
-  (updates : upds) (insert_table update_table : oterm)
-  (conflict_fields : terms) (conflict_updates : cupds) (conflict_wheres conflict_update_wheres : oterm)
-  (returns distinct_on : terms).
+  (render_o : ctx -> pz -> oterm -> res (option str * pz)).
 
+(* the flags of the embedding position decide only about the parentheses and the alias around the whole set operation *)
+Definition setop_ctx (c : ctx) : ctx :=
+  let cn := set_with_namespace false (set_subquery false (set_with_alias false (set_subcriterion false c))) in
+  match dialect cn with MSSQL | ORACLE => set_groupby_alias false cn | _ => cn end.
+
+(* operands, ORDER BY and row limit *)
+Definition setop_body (c1 : ctx) (p : pz) (base : query) (ops : sops) (obs : obys) (lim off : oterm) : res (str * pz) :=
+      let set_ctx := set_subquery (query_wrap_setops base && negb (dial_eqb (dialect c1) MYSQL)) c1 in
+      do (sb, p1) <- render_query (if query_has_tail base then set_subquery true set_ctx else set_ctx) p base;
+      do (sops_, p2) <- render_sops set_ctx (query_selects_len base) p1 ops;
+      let s := sb ++ sops_ in
+      do (sob, p3) <- render_obys c1 (query_select_aliases base) false p2 obs;
+      let s := match sob with [] => s | _ => s ++ L " ORDER BY " ++ join [44] sob end in
+      do (spag, p5) <-
+        (match lim, off with
+         | NoT, NoT => Ok ([], p3)
+         | _, _ =>
+           match dialect c1 with
+           | MSSQL =>
+               do (oo, p4) <- render_o c1 p3 off;
+               do (ol, p5) <- render_o c1 p4 lim;
+               Ok ((match sob with [] => L " ORDER BY (SELECT 0)" | _ => [] end) ++ L " OFFSET " ++
+                   (match oo with Some o => o | None => L "0" end) ++ L " ROWS" ++
+                   (match ol with Some l => L " FETCH NEXT " ++ l ++ L " ROWS ONLY" | None => [] end), p5)
+           | ORACLE =>
+               do (oo, p4) <- render_o c1 p3 off;
+               do (ol, p5) <- render_o c1 p4 lim;
+               Ok ((match oo with Some o => L " OFFSET " ++ o ++ L " ROWS" | None => [] end) ++
+                   (match ol with Some l => L " FETCH NEXT " ++ l ++ L " ROWS ONLY" | None => [] end), p5)
+           | _ =>
+               do (ol, p4) <- render_o c1 p3 lim;
+               do (oo, p5) <- render_o c1 p4 off;
+               Ok ((match ol with Some l => L " LIMIT " ++ l | None => [] end) ++
+                   (match oo with Some o => L " OFFSET " ++ o | None => [] end), p5)
+           end
+         end);
+      Ok (s ++ spag, p5).
+
+Definition setop_render (c : ctx) (p : pz) (base : query) (ops : sops) (obs : obys) (lim off : oterm) (alias : option str) : res (str * pz) :=
+  let c1 := setop_ctx c in
+  do (s, p5) <- setop_body c1 p base ops obs lim off;
+  Ok (alias_if (with_alias c) c1 (paren_if (subquery c) s) alias, p5).
+End SetOp.
+
+(* the recursive renderers a statement needs, bundled (bound to the Fixpoint below) *)
+Record rens := MkRens {
+  r_o : ctx -> pz -> oterm -> res (option str * pz);
+  r_ts : ctx -> pz -> terms -> res (list str * pz);
+  r_obys : ctx -> list (option str) -> bool -> pz -> obys -> res (list str * pz);
+  r_rows : ctx -> pz -> rows -> res (list str * pz);
+  r_upds : ctx -> ctx -> pz -> upds -> res (list str * pz);
+  r_cupds : ctx -> ctx -> option str -> pz -> cupds -> res (list str * pz);
+  r_joins : ctx -> pz -> joins -> res (list str * pz);
+  r_ctes : ctx -> pz -> ctes -> res (list str * pz);
+  r_gbys : ctx -> pz -> gbys -> res (list str * pz) }.
+
+(* the fields of a statement *)
+Definition q_cls (q : query) := match q with MkQ x _ _ _ _ _ _ _ _ _ _ _ _ _ _ _ _ _ _ _ _ _ _ _ _ _ => x end.
+Definition q_from (q : query) := match q with MkQ _ _ x _ _ _ _ _ _ _ _ _ _ _ _ _ _ _ _ _ _ _ _ _ _ _ => x end.
+Definition q_withs (q : query) := match q with MkQ _ _ _ x _ _ _ _ _ _ _ _ _ _ _ _ _ _ _ _ _ _ _ _ _ _ => x end.
+Definition q_selects (q : query) := match q with MkQ _ _ _ _ x _ _ _ _ _ _ _ _ _ _ _ _ _ _ _ _ _ _ _ _ _ => x end.
+Definition q_force_idx (q : query) := match q with MkQ _ _ _ _ _ x _ _ _ _ _ _ _ _ _ _ _ _ _ _ _ _ _ _ _ _ => x end.
+Definition q_use_idx (q : query) := match q with MkQ _ _ _ _ _ _ x _ _ _ _ _ _ _ _ _ _ _ _ _ _ _ _ _ _ _ => x end.
+Definition q_columns (q : query) := match q with MkQ _ _ _ _ _ _ _ x _ _ _ _ _ _ _ _ _ _ _ _ _ _ _ _ _ _ => x end.
+Definition q_values (q : query) := match q with MkQ _ _ _ _ _ _ _ _ x _ _ _ _ _ _ _ _ _ _ _ _ _ _ _ _ _ => x end.
+Definition q_wheres (q : query) := match q with MkQ _ _ _ _ _ _ _ _ _ x _ _ _ _ _ _ _ _ _ _ _ _ _ _ _ _ => x end.
+Definition q_prewheres (q : query) := match q with MkQ _ _ _ _ _ _ _ _ _ _ x _ _ _ _ _ _ _ _ _ _ _ _ _ _ _ => x end.
+Definition q_havings (q : query) := match q with MkQ _ _ _ _ _ _ _ _ _ _ _ x _ _ _ _ _ _ _ _ _ _ _ _ _ _ => x end.
+Definition q_groupbys (q : query) := match q with MkQ _ _ _ _ _ _ _ _ _ _ _ _ x _ _ _ _ _ _ _ _ _ _ _ _ _ => x end.
+Definition q_orderbys (q : query) := match q with MkQ _ _ _ _ _ _ _ _ _ _ _ _ _ x _ _ _ _ _ _ _ _ _ _ _ _ => x end.
+Definition q_joins_ (q : query) := match q with MkQ _ _ _ _ _ _ _ _ _ _ _ _ _ _ x _ _ _ _ _ _ _ _ _ _ _ => x end.
+Definition q_lim (q : query) := match q with MkQ _ _ _ _ _ _ _ _ _ _ _ _ _ _ _ x _ _ _ _ _ _ _ _ _ _ => x end.
+Definition q_off (q : query) := match q with MkQ _ _ _ _ _ _ _ _ _ _ _ _ _ _ _ _ x _ _ _ _ _ _ _ _ _ => x end.
+Definition q_updates (q : query) := match q with MkQ _ _ _ _ _ _ _ _ _ _ _ _ _ _ _ _ _ x _ _ _ _ _ _ _ _ => x end.
+Definition q_insert_table (q : query) := match q with MkQ _ _ _ _ _ _ _ _ _ _ _ _ _ _ _ _ _ _ x _ _ _ _ _ _ _ => x end.
+Definition q_update_table (q : query) := match q with MkQ _ _ _ _ _ _ _ _ _ _ _ _ _ _ _ _ _ _ _ x _ _ _ _ _ _ => x end.
+Definition q_conflict_fields (q : query) := match q with MkQ _ _ _ _ _ _ _ _ _ _ _ _ _ _ _ _ _ _ _ _ x _ _ _ _ _ => x end.
+Definition q_conflict_updates (q : query) := match q with MkQ _ _ _ _ _ _ _ _ _ _ _ _ _ _ _ _ _ _ _ _ _ x _ _ _ _ => x end.
+Definition q_conflict_wheres (q : query) := match q with MkQ _ _ _ _ _ _ _ _ _ _ _ _ _ _ _ _ _ _ _ _ _ _ x _ _ _ => x end.
+Definition q_conflict_update_wheres (q : query) := match q with MkQ _ _ _ _ _ _ _ _ _ _ _ _ _ _ _ _ _ _ _ _ _ _ _ x _ _ => x end.
+Definition q_returns (q : query) := match q with MkQ _ _ _ _ _ _ _ _ _ _ _ _ _ _ _ _ _ _ _ _ _ _ _ _ x _ => x end.
+Definition q_distinct_on (q : query) := match q with MkQ _ _ _ _ _ _ _ _ _ _ _ _ _ _ _ _ _ _ _ _ _ _ _ _ _ x => x end.
+Definition q_alias (q : query) := match q with MkQ _ (MkFl x _ _ _ _ _ _ _ _ _ _ _ _ _ _ _ _ _) _ _ _ _ _ _ _ _ _ _ _ _ _ _ _ _ _ _ _ _ _ _ _ _ => x end.
+Definition q_delete_from (q : query) := match q with MkQ _ (MkFl _ x _ _ _ _ _ _ _ _ _ _ _ _ _ _ _ _) _ _ _ _ _ _ _ _ _ _ _ _ _ _ _ _ _ _ _ _ _ _ _ _ => x end.
+Definition q_replace_ (q : query) := match q with MkQ _ (MkFl _ _ x _ _ _ _ _ _ _ _ _ _ _ _ _ _ _) _ _ _ _ _ _ _ _ _ _ _ _ _ _ _ _ _ _ _ _ _ _ _ _ => x end.
+Definition q_distinct (q : query) := match q with MkQ _ (MkFl _ _ _ x _ _ _ _ _ _ _ _ _ _ _ _ _ _) _ _ _ _ _ _ _ _ _ _ _ _ _ _ _ _ _ _ _ _ _ _ _ _ => x end.
+Definition q_for_update (q : query) := match q with MkQ _ (MkFl _ _ _ _ x _ _ _ _ _ _ _ _ _ _ _ _ _) _ _ _ _ _ _ _ _ _ _ _ _ _ _ _ _ _ _ _ _ _ _ _ _ => x end.
+Definition q_nowait (q : query) := match q with MkQ _ (MkFl _ _ _ _ _ x _ _ _ _ _ _ _ _ _ _ _ _) _ _ _ _ _ _ _ _ _ _ _ _ _ _ _ _ _ _ _ _ _ _ _ _ => x end.
+Definition q_skip_locked (q : query) := match q with MkQ _ (MkFl _ _ _ _ _ _ x _ _ _ _ _ _ _ _ _ _ _) _ _ _ _ _ _ _ _ _ _ _ _ _ _ _ _ _ _ _ _ _ _ _ _ => x end.
+Definition q_with_totals (q : query) := match q with MkQ _ (MkFl _ _ _ _ _ _ _ x _ _ _ _ _ _ _ _ _ _) _ _ _ _ _ _ _ _ _ _ _ _ _ _ _ _ _ _ _ _ _ _ _ _ => x end.
+Definition q_mysql_rollup (q : query) := match q with MkQ _ (MkFl _ _ _ _ _ _ _ _ x _ _ _ _ _ _ _ _ _) _ _ _ _ _ _ _ _ _ _ _ _ _ _ _ _ _ _ _ _ _ _ _ _ => x end.
+Definition q_select_into (q : query) := match q with MkQ _ (MkFl _ _ _ _ _ _ _ _ _ x _ _ _ _ _ _ _ _) _ _ _ _ _ _ _ _ _ _ _ _ _ _ _ _ _ _ _ _ _ _ _ _ => x end.
+Definition q_foreign_table (q : query) := match q with MkQ _ (MkFl _ _ _ _ _ _ _ _ _ _ x _ _ _ _ _ _ _) _ _ _ _ _ _ _ _ _ _ _ _ _ _ _ _ _ _ _ _ _ _ _ _ => x end.
+Definition q_on_conflict (q : query) := match q with MkQ _ (MkFl _ _ _ _ _ _ _ _ _ _ _ x _ _ _ _ _ _) _ _ _ _ _ _ _ _ _ _ _ _ _ _ _ _ _ _ _ _ _ _ _ _ => x end.
+Definition q_do_nothing (q : query) := match q with MkQ _ (MkFl _ _ _ _ _ _ _ _ _ _ _ _ x _ _ _ _ _) _ _ _ _ _ _ _ _ _ _ _ _ _ _ _ _ _ _ _ _ _ _ _ _ => x end.
+Definition q_for_update_of (q : query) := match q with MkQ _ (MkFl _ _ _ _ _ _ _ _ _ _ _ _ _ _ x _ _ _) _ _ _ _ _ _ _ _ _ _ _ _ _ _ _ _ _ _ _ _ _ _ _ _ => x end.
+Definition q_modifiers (q : query) := match q with MkQ _ (MkFl _ _ _ _ _ _ _ _ _ _ _ _ _ _ _ x _ _) _ _ _ _ _ _ _ _ _ _ _ _ _ _ _ _ _ _ _ _ _ _ _ _ => x end.
+Definition q_top (q : query) := match q with MkQ _ (MkFl _ _ _ _ _ _ _ _ _ _ _ _ _ _ _ _ x _) _ _ _ _ _ _ _ _ _ _ _ _ _ _ _ _ _ _ _ _ _ _ _ _ => x end.
+
+(* ---- the body of QueryBuilder.get_sql (and its dialect overrides), clause by clause ----
+   Section Q: over the renderers R and the statement q (its fields as local names); has_* / ns depend on q alone.
+   Section Clauses: additionally over c0 (the context get_sql was called with, after the dialect override's copy) and
+   c (the context of the clauses); the two flags of the embedding position (subquery, with_alias) are explicit
+   arguments of tail_with / generic_with / main_with.  q_render ties them together. *)
+Section Q.
+Variable R : rens.
+Variable q : query.
+Let render_o := r_o R. Let render_ts := r_ts R. Let render_obys := r_obys R. Let render_rows := r_rows R. Let render_upds := r_upds R.
+Let render_cupds := r_cupds R. Let render_joins := r_joins R. Let render_ctes := r_ctes R. Let render_gbys := r_gbys R.
+Let cls := q_cls q.
+Let from := q_from q.
+Let withs := q_withs q.
+Let selects := q_selects q.
+Let force_idx := q_force_idx q.
+Let use_idx := q_use_idx q.
+Let columns := q_columns q.
+Let values := q_values q.
+Let wheres := q_wheres q.
+Let prewheres := q_prewheres q.
+Let havings := q_havings q.
+Let groupbys := q_groupbys q.
+Let orderbys := q_orderbys q.
+Let joins_ := q_joins_ q.
+Let lim := q_lim q.
+Let off := q_off q.
+Let updates := q_updates q.
+Let insert_table := q_insert_table q.
+Let update_table := q_update_table q.
+Let conflict_fields := q_conflict_fields q.
+Let conflict_updates := q_conflict_updates q.
+Let conflict_wheres := q_conflict_wheres q.
+Let conflict_update_wheres := q_conflict_update_wheres q.
+Let returns := q_returns q.
+Let distinct_on := q_distinct_on q.
+Let alias := q_alias q.
+Let delete_from := q_delete_from q.
+Let replace_ := q_replace_ q.
+Let distinct := q_distinct q.
+Let for_update := q_for_update q.
+Let nowait := q_nowait q.
+Let skip_locked := q_skip_locked q.
+Let with_totals := q_with_totals q.
+Let mysql_rollup := q_mysql_rollup q.
+Let select_into := q_select_into q.
+Let foreign_table := q_foreign_table q.
+Let on_conflict := q_on_conflict q.
+Let do_nothing := q_do_nothing q.
+Let for_update_of := q_for_update_of q.
+Let modifiers := q_modifiers q.
+Let top := q_top q.
 
 Definition has_sel := is_nonempty_terms selects.
 Definition has_ins := is_some_t insert_table.
@@ -171,10 +308,12 @@ Definition has_upd := is_some_t update_table.
 Definition has_vals := match values with RNil => false | _ => true end.
 Definition has_updates := match updates with UNil => false | _ => true end.
 Definition has_joins := match joins_ with JNil => false | _ => true end.
-Definition c0 := match cls with BMSSQL | BOracle => set_groupby_alias false c00 | _ => c00 end.
 Definition ns := has_joins || from_len_gt1 from || from0_is_query from || foreign_table || (has_upd && is_nonempty_terms from).
-Definition c := set_with_namespace ns (set_subquery false (set_with_alias false (set_subcriterion false c0))).
 Definition sel_aliases := aliases_of selects.
+
+Section Clauses.
+Variables (c0 c : ctx).
+
 Definition with_sql p := match withs with
                       | WNil => Ok ([], p)
                       | _ => do (ss, p1) <- render_ctes c p withs; Ok (L "WITH " ++ join [44] ss, p1)
@@ -388,12 +527,20 @@ Definition main_with (sq wa : bool) p : res (str * pz) :=
     | _ => generic_with sq wa p
     end.
 
+End Clauses.
+
+(* the context of the clauses: the flags of the embedding position decide only about the parentheses and the alias around the whole statement *)
+Definition clause_ctx (c0 : ctx) : ctx :=
+  set_with_namespace ns (set_subquery false (set_with_alias false (set_subcriterion false c0))).
+(* dialect get_sql overrides that copy the context first *)
+Definition adjust_ctx (c00 : ctx) : ctx := match cls with BMSSQL | BOracle => set_groupby_alias false c00 | _ => c00 end.
+
 (* an incomplete builder renders the empty string *)
-Definition q_render p : res (str * pz) :=
+Definition q_render (c00 : ctx) p : res (str * pz) :=
   if negb (has_sel || has_ins || delete_from || has_upd) then Ok ([], p)
   else if has_ins && negb (has_sel || has_vals) then Ok ([], p)
   else if has_upd && negb has_updates then Ok ([], p)
-  else main_with (subquery c0) (with_alias c0) p.
+  else let c0 := adjust_ctx c00 in main_with c0 (clause_ctx c0) (subquery c0) (with_alias c0) p.
 
 End Q.
 
@@ -539,42 +686,7 @@ Fixpoint render (c : ctx) (p : pz) (t : term) {struct t} : res (str * pz) :=
       | SomeT t' => render c p t'
       end
   | TQuery q => render_query c p q
-  | TSetOp base ops obs lim off alias =>
-      (* the flags of the embedding position decide only about the parentheses and the alias around the whole set operation *)
-      let cn := set_with_namespace false (set_subquery false (set_with_alias false (set_subcriterion false c))) in
-      let c1 := match dialect cn with MSSQL | ORACLE => set_groupby_alias false cn | _ => cn end in
-      let set_ctx := set_subquery (query_wrap_setops base && negb (dial_eqb (dialect c1) MYSQL)) c1 in
-      do (sb, p1) <- render_query (if query_has_tail base then set_subquery true set_ctx else set_ctx) p base;
-      do (sops_, p2) <- render_sops set_ctx (query_selects_len base) p1 ops;
-      let s := sb ++ sops_ in
-      do (sob, p3) <- render_obys c1 (query_select_aliases base) false p2 obs;
-      let s := match sob with [] => s | _ => s ++ L " ORDER BY " ++ join [44] sob end in
-      do (spag, p5) <-
-        (match lim, off with
-         | NoT, NoT => Ok ([], p3)
-         | _, _ =>
-           match dialect c1 with
-           | MSSQL =>
-               do (oo, p4) <- render_o c1 p3 off;
-               do (ol, p5) <- render_o c1 p4 lim;
-               Ok ((match sob with [] => L " ORDER BY (SELECT 0)" | _ => [] end) ++ L " OFFSET " ++
-                   (match oo with Some o => o | None => L "0" end) ++ L " ROWS" ++
-                   (match ol with Some l => L " FETCH NEXT " ++ l ++ L " ROWS ONLY" | None => [] end), p5)
-           | ORACLE =>
-               do (oo, p4) <- render_o c1 p3 off;
-               do (ol, p5) <- render_o c1 p4 lim;
-               Ok ((match oo with Some o => L " OFFSET " ++ o ++ L " ROWS" | None => [] end) ++
-                   (match ol with Some l => L " FETCH NEXT " ++ l ++ L " ROWS ONLY" | None => [] end), p5)
-           | _ =>
-               do (ol, p4) <- render_o c1 p3 lim;
-               do (oo, p5) <- render_o c1 p4 off;
-               Ok ((match ol with Some l => L " LIMIT " ++ l | None => [] end) ++
-                   (match oo with Some o => L " OFFSET " ++ o | None => [] end), p5)
-           end
-         end);
-      let s := s ++ spag in
-      let s := paren_if (subquery c) s in
-      Ok (alias_if (with_alias c) c1 s alias, p5)
+  | TSetOp base ops obs lim off alias => setop_render render_query render_sops render_obys render_o c p base ops obs lim off alias
   end
 
 with render_o (c : ctx) (p : pz) (o : oterm) {struct o} : res (option str * pz) :=
@@ -709,19 +821,6 @@ with render_gbys (c : ctx) (p : pz) (l : gbys) {struct l} : res (list str * pz) 
   end
 
 with render_query (c0 : ctx) (p : pz) (q : query) {struct q} : res (str * pz) :=
-  match q with
-  | MkQ cls fl from withs selects force_idx use_idx columns values wheres prewheres havings groupbys orderbys joins_ lim off
-        updates insert_table update_table conflict_fields conflict_updates conflict_wheres conflict_update_wheres
-        returns distinct_on =>
-  match fl with
-  | MkFl alias delete_from replace_ distinct for_update nowait skip_locked with_totals mysql_rollup select_into foreign_table
-         on_conflict do_nothing wrap_setops for_update_of modifiers top wrapper =>
-    q_render render_o render_ts render_obys render_rows render_upds render_cupds render_joins render_ctes render_gbys
-             c0 cls alias delete_from replace_ distinct for_update nowait skip_locked with_totals mysql_rollup
-             select_into foreign_table on_conflict do_nothing for_update_of modifiers top
-             from withs selects force_idx use_idx columns values wheres prewheres havings groupbys orderbys joins_ lim off
-             updates insert_table update_table conflict_fields conflict_updates conflict_wheres conflict_update_wheres
-             returns distinct_on p
-  end end.
+  q_render (MkRens render_o render_ts render_obys render_rows render_upds render_cupds render_joins render_ctes render_gbys) q c0 p.
 
 End Render.
